@@ -160,14 +160,30 @@ def exponents(d, prof, s, seed):
         ex = [int(x) + s for x in g.integers(-abs(s) - 1, abs(s) + 2, size=d)]
     elif prof == 'ramp':
         ex = [int(round(2 * s * k / max(1, d - 1))) for k in range(d)]
+    elif prof == 'one':            # one huge (s > 0) / tiny (s < 0) core at a seed-dependent position, the others O(1)
+        ex = [0] * d
+        ex[(7 * seed + 3) % d] = HI if s > 0 else LO
+    elif prof == 'ends':           # the scale sits in the first and the last core only
+        ex = [0] * d
+        ex[0] = ex[-1] = HI if s > 0 else LO
+    elif prof == 'alt2':           # alternating with unequal magnitudes: huge, tiny, huge, ... (net drift |HI + LO| per pair)
+        ex = [(HI if k % 2 == 0 else LO) if s > 0 else (LO if k % 2 == 0 else HI) for k in range(d)]
     else:
         raise ValueError(prof)
     return [max(LO, min(HI, int(x))) for x in ex]
 
 
-def make(d, r, n, seed, fam, prof, s, exps=None):
-    """TT-tensor of a family with exact power-of-two per-core scales; returns (Y, exps)."""
+def modes(d, n):
+    """Mode sizes: n an int (all modes) or a list that is repeated cyclically."""
+    return [int(n)] * d if isinstance(n, int) else [int(n[k % len(n)]) for k in range(d)]
+
+
+def make(d, r, n, seed, fam, prof, s, exps=None, tshift=0):
+    """TT-tensor of a family with exact power-of-two per-core scales; returns (Y, exps).  n: int or list (cyclic);
+    tshift: the exponents of the first |tshift| cores (cyclically) are raised / lowered by one more, so that the total
+    exponent moves by exactly tshift."""
     g = gen.rng('C16tt', d, r, n, seed, fam)
+    nn = modes(d, n)
     rr = [1] + [1 if fam == 'rank1s' else r] * (d - 1) + [1]
     Y = []
     if fam == 'rot':
@@ -175,6 +191,7 @@ def make(d, r, n, seed, fam, prof, s, exps=None):
         # orthogonal Q_k on both sides, which cancels in the chain - perfectly conditioned at any d, signed entries
         Qs = [None] + [np.linalg.qr(gen.rng('C16rot', d, r, n, seed, k).normal(size=(rr[k], rr[k])))[0] for k in range(1, d)] + [None]
     for k in range(d):
+        n = nn[k]
         shp = (rr[k], n, rr[k + 1])
         if fam == 'pos':
             G = g.uniform(0.5, 1.5, size=shp)
@@ -199,6 +216,8 @@ def make(d, r, n, seed, fam, prof, s, exps=None):
             raise ValueError(fam)
         Y.append(G)
     ex = exponents(d, prof, s, seed) if exps is None else list(exps)
+    for j in range(abs(int(tshift))):
+        ex[j % d] += 1 if tshift > 0 else -1
     Y = [np.ldexp(G, e) for G, e in zip(Y, ex)]
     return Y, ex
 
@@ -353,7 +372,10 @@ def norm_stab(d, r, n, seed, fam, prof, s):
 # ----------------------------------------------------------------------------- orthogonalize
 
 def _pivot(d, kmode):
-    return {'first': 0, 'last': d - 1, 'mid': d // 2, 'none': None}[kmode]
+    if isinstance(kmode, int):
+        return kmode % d
+    return {'first': 0, 'last': d - 1, 'mid': d // 2, 'none': None, 'second': min(1, d - 1), 'penult': max(0, d - 2),
+            'third': d // 3, 'q3': (2 * d) // 3}[kmode]
 
 
 @clause('C16.orthogonalize.stab_large', funcs=('transformation.orthogonalize', 'core.core_stab'))
@@ -370,7 +392,7 @@ def orth_stab(d, r, n, seed, fam, prof, s, kmode):
         return FAIL('no (Z, p) pair')
     Z, p = out
     k = d - 1 if k is None else k
-    msg = gen.wf(Z, [n] * d)
+    msg = gen.wf(Z, modes(d, n))
     if msg:
         return FAIL('not well-formed: ' + msg)
     if not _is_int(p):
@@ -380,6 +402,8 @@ def orth_stab(d, r, n, seed, fam, prof, s, kmode):
     mx = [float(np.abs(G).max()) for G in Z]
     if not all(x <= 2.0 for x in mx):
         return FAIL(f'entries up to {max(mx):.3e}')
+    if mx[k] == 0.0 and exact_dot(Y, Y)[0] == 0:
+        return TRIVIAL('exactly-zero tensor')
     if not (1.0 <= mx[k] < 2.0):
         return FAIL(f'pivot max-modulus {mx[k]!r} not in [1, 2)')
     for j, G in enumerate(Z):
@@ -402,7 +426,7 @@ def orth_stab(d, r, n, seed, fam, prof, s, kmode):
     if all(G.shape[0] == 1 and G.shape[2] == 1 for G in Y):
         g = gen.rng('C16idx', d, seed)
         for _ in range(3):
-            i = [int(x) for x in g.integers(0, n, size=d)]
+            i = [int(x) for x in g.integers(0, modes(d, n))]
             num, en, den, ed = 1, 0, 1, 0
             for j in range(d):
                 a, ea = to_int(Z[j][:, i[j], :])
@@ -420,7 +444,7 @@ def orth_stab(d, r, n, seed, fam, prof, s, kmode):
 # ----------------------------------------------------------------------------- accuracy
 
 @clause('C16.accuracy.relative_distance', funcs=('act_two.accuracy', 'act_one.norm', 'act_two.sub'))
-def accuracy_rel(d, r, n, seed, fam, prof, s, rel):
+def accuracy_rel(d, r, n, seed, fam, prof, s, rel, sep=640):
     """accuracy(Y1, Y2) = exact ||Y1 - Y2|| / ||Y2|| for tensors far outside the double range; 1e299 when the
     quotient exceeds 2^500; a documented saturation value (-1 / 1e299 / 0.0) for a zero reference tensor; (numerically)
     zero for a copy."""
@@ -433,15 +457,15 @@ def accuracy_rel(d, r, n, seed, fam, prof, s, rel):
         Y1[j] = Y1[j] * (1 + 1e-3 * gen.rng('pert', seed).uniform(0.5, 1.0, size=Y1[j].shape))
     elif rel == 'copy':
         Y1 = [G.copy() for G in Y2]
-    elif rel == 'huge_vs_tiny':            # ||Y1|| / ||Y2|| > 2^600
+    elif rel == 'huge_vs_tiny':            # ||Y1|| / ||Y2|| > 2^600 (sep = 640; other values probe the threshold 2^500)
         Y1 = [G.copy() for G in Y2]
-        todo = 640
+        todo = sep
         for j in range(d):
             u = min(todo, 150)
             Y1[j] = np.ldexp(Y1[j], u)
             todo -= u
         if todo > 0:
-            return SKIP('cannot separate the scales by 2^640 with d cores')
+            return SKIP(f'cannot separate the scales by 2^{sep} with d cores')
         Y1[0] = Y1[0] * 1.5
     elif rel == 'tiny_vs_huge':            # ||Y1|| / ||Y2|| < 2^-600: distance = ||Y2||
         Y1 = [G.copy() for G in Y2]
@@ -528,10 +552,12 @@ def accuracy_mismatched(d, r, n, seed, fam, shift, factor):
 # ----------------------------------------------------------------------------- truncate
 
 @clause('C16.truncate.stab_large', funcs=('transformation.truncate', 'transformation.orthogonalize', 'core.core_stab'))
-def truncate_stab(d, r, n, seed, fam, prof, s, e, inflate):
+def truncate_stab(d, r, n, seed, fam, prof, s, e, inflate, rcap=None, is_eigh=True, tshift=0):
     """truncate(Y, e, use_stab=True): finite well-formed cores of the same shape, no rank increase (redundant ranks
-    removed), exact relative distance to the input <= e."""
-    T, ex = make(d, r, n, seed, fam, prof, s)
+    removed), exact relative distance to the input <= e.  rcap: rank cap r (int or float), every rank <= cap; the
+    accuracy is only required if the cap is at least the TT-rank of the tensor.  is_eigh=False: the skeleton
+    (SVD) branch.  tshift: total exponent moved by exactly tshift (sweeps the residue of the exponent modulo d)."""
+    T, ex = make(d, r, n, seed, fam, prof, s, tshift=tshift)
     if inflate == 'dup':              # Y = T + T/4 as a block tensor: ranks 2r, TT-ranks r
         T2 = [G.copy() for G in T]
         T2[d // 2] = T2[d // 2] * 0.25
@@ -543,10 +569,15 @@ def truncate_stab(d, r, n, seed, fam, prof, s, e, inflate):
         Y = T
     rin = [G.shape[2] for G in Y[:-1]]
     snap = gen.snapshot(Y)
-    Z = teneva.truncate(Y, e, use_stab=True)
+    kw = {}
+    if rcap is not None:
+        kw['r'] = rcap
+    if not is_eigh:
+        kw['is_eigh'] = False
+    Z = teneva.truncate(Y, e, use_stab=True, **kw)
     if gen.snapshot(Y) != snap:
         return FAIL('input changed')
-    msg = gen.wf(Z, [n] * d)
+    msg = gen.wf(Z, modes(d, n))
     if msg:
         return FAIL('not well-formed: ' + msg)
     if not gen.finite(Z):
@@ -554,8 +585,14 @@ def truncate_stab(d, r, n, seed, fam, prof, s, e, inflate):
     rk = [G.shape[2] for G in Z[:-1]]
     if any(a > b for a, b in zip(rk, rin)):
         return FAIL('a rank increased')
-    if inflate == 'dup' and e >= 1e-9 and any(a > (1 if fam == 'rank1s' else r) for a in rk):
+    rtrue = 1 if fam == 'rank1s' else r
+    if inflate == 'dup' and e >= 1e-9 and any(a > rtrue for a in rk):
         return FAIL(f'redundant ranks not removed: max rank {max(rk)} > {r}')
+    if rcap is not None:
+        if any(a > int(rcap) for a in rk):
+            return FAIL(f'rank cap {rcap}: ranks {rk}')
+        if int(rcap) < rtrue:
+            return PASS if rk != rin else TRIVIAL('nothing truncated')       # binding below the TT-rank: structure only
     N11, E11 = exact_dot(Y, Y)
     N12, E12 = exact_dot(Y, Z)
     N22, E22 = exact_dot(Z, Z)
@@ -575,7 +612,7 @@ def truncate_stab(d, r, n, seed, fam, prof, s, e, inflate):
 
 @clause('C16.stab_vs_plain.agree', funcs=('act_two.mul_scalar', 'act_one.norm', 'transformation.orthogonalize',
                                           'transformation.truncate'))
-def stab_vs_plain(d, r, n, seed, fam, prof, s, e):
+def stab_vs_plain(d, r, n, seed, fam, prof, s, e, rcap=None, is_eigh=True):
     """Representable inputs: v 2^p = plain mul_scalar, z 2^q = plain norm, 2^p Z = plain orthogonalize core by core,
     stabilised truncate = plain truncate (same ranks, same cores up to rounding after contraction)."""
     Y, ex = make(d, r, n, seed, fam, prof, s)
@@ -609,14 +646,21 @@ def stab_vs_plain(d, r, n, seed, fam, prof, s, e):
     sn = z * 2.0 ** q
     if not abs(sn - pn) <= 512 * d * EPS * pn:
         return FAIL(f'norm: stab {sn!r} vs plain {pn!r}')
-    for k in (0, d - 1, d // 2):
+    for k in sorted({0, d - 1, d // 2, min(1, d - 1), max(0, d - 2)}):
         Zs, ps = teneva.orthogonalize(Y, k, use_stab=True)
         Zp = teneva.orthogonalize(Y, k)
         for j in range(d):
             A = np.ldexp(Zs[j], int(ps)) if j == k else Zs[j]
             if A.shape != Zp[j].shape or not np.abs(A - Zp[j]).max() <= 64 * EPS * max(1e-300, np.abs(Zp[j]).max()):
                 return FAIL(f'orthogonalize(k={k}): core {j} differs between the stabilised and the plain run')
-    Ts, Tp = teneva.truncate(Y, e, use_stab=True), teneva.truncate(Y, e)
+    kw = {}
+    if rcap is not None:
+        kw['r'] = rcap
+    if not is_eigh:
+        kw['is_eigh'] = False
+    Ts, Tp = teneva.truncate(Y, e, use_stab=True, **kw), teneva.truncate(Y, e, **kw)
+    if rcap is not None and any(G.shape[2] > int(rcap) for G in Ts):
+        return FAIL(f'truncate: rank cap {rcap} exceeded: {[G.shape[2] for G in Ts]}')
     if [G.shape for G in Ts] != [G.shape for G in Tp]:
         return FAIL(f'truncate: ranks differ: {[G.shape[2] for G in Ts]} vs {[G.shape[2] for G in Tp]}')
     if d <= 12:
@@ -631,6 +675,55 @@ def stab_vs_plain(d, r, n, seed, fam, prof, s, e):
         rel2 = bigratio(S, ES, N22, E22)
         if not rel2 <= 1e-18:
             return FAIL(f'truncate: stabilised and plain results differ by {math.sqrt(rel2):.3e} (relative)')
+    return PASS
+
+
+# ----------------------------------------------------------------------------- re-scaling one core
+
+@clause('C16.rescale.exponent_only', funcs=('act_two.mul_scalar', 'act_one.norm', 'transformation.orthogonalize',
+                                            'core.core_stab'))
+def rescale_exponent_only(d, r, n, seed, fam, prof, s, pos, t, kmode):
+    """Rescaling core `pos` by the exact power of two 2^t shifts the exponent and nothing else: mul_scalar(Y, Y2)
+    -> (v, p + t) (and (v, p + 2t) if both arguments are rescaled), norm -> (z, q + t) with bit-identical mantissas;
+    orthogonalize(Y, k) -> exponent p + t and the same mantissa cores (up to 8 ulp of the largest entry: the QR
+    kernels may order their sums differently for another magnitude)."""
+    Y, ex = make(d, r, n, seed, fam, prof, s)
+    Y2, _ = make(d, max(1, r - 1) if r > 1 else 2, n, seed + 1, fam if fam != 'rank1s' else 'gauss', prof, s)
+    j = _pivot(d, pos)
+    if j is None:
+        j = d - 1
+    if not LO - 60 <= ex[j] + t <= HI + 60:
+        return SKIP('rescaled core would leave the per-core range of the suite')
+    Ys = [np.ldexp(G, t) if i == j else G for i, G in enumerate(Y)]
+    Y2s = [np.ldexp(G, t) if i == j else G for i, G in enumerate(Y2)]
+    v0, p0 = teneva.mul_scalar(Y, Y2, use_stab=True)
+    v1, p1 = teneva.mul_scalar(Ys, Y2, use_stab=True)
+    v2, p2 = teneva.mul_scalar(Ys, Y2s, use_stab=True)
+    w0, o0 = teneva.mul_scalar(Y2, Y, use_stab=True)
+    v3, p3 = teneva.mul_scalar(Y2, Ys, use_stab=True)
+    if v0 == 0.0 or w0 == 0.0:          # exactly-zero scalar product: the exponent carries no information
+        if not (v1 == 0.0 and v2 == 0.0 and v3 == 0.0):
+            return FAIL(f'mul_scalar: zero value became ({v1!r}, {v2!r}, {v3!r}) for core {j} times 2^{t}')
+    elif not (np.isfinite(v0) and v1 == v0 and v2 == v0 and v3 == w0 and p1 == p0 + t and p2 == p0 + 2 * t and p3 == o0 + t):
+        return FAIL(f'mul_scalar: ({v0!r}, {p0}) -> one argument ({v1!r}, {p1}), both ({v2!r}, {p2}), swapped ({v3!r}, {p3}) '
+                    f'for core {j} times 2^{t}')
+    z0, q0 = teneva.norm(Y, use_stab=True)
+    z1, q1 = teneva.norm(Ys, use_stab=True)
+    if z0 == 0.0:
+        if z1 != 0.0:
+            return FAIL(f'norm: zero mantissa became {z1!r}')
+        return TRIVIAL('exactly-zero tensor')
+    if not (np.isfinite(z0) and z1 == z0 and q1 == q0 + t):
+        return FAIL(f'norm: ({z0!r}, {q0}) -> ({z1!r}, {q1}) for core {j} times 2^{t}')
+    k = _pivot(d, kmode)
+    Z0, e0 = teneva.orthogonalize(Y, k, use_stab=True)
+    Z1, e1 = teneva.orthogonalize(Ys, k, use_stab=True)
+    if e1 != e0 + t:
+        return FAIL(f'orthogonalize(k={k}): exponent {e0} -> {e1} for core {j} times 2^{t}')
+    for i, (A, B) in enumerate(zip(Z0, Z1)):
+        if A.shape != B.shape or not np.abs(A - B).max() <= 8 * EPS * max(1.0, float(np.abs(A).max())):
+            return FAIL(f'orthogonalize(k={k}): mantissa core {i} changed by {np.abs(A - B).max() if A.shape == B.shape else "shape"} '
+                        f'for core {j} times 2^{t}')
     return PASS
 
 
@@ -736,6 +829,123 @@ def cases(tier, seed):
         for s in (-200, -170, 520):
             for fam in ('pos', 'gauss'):
                 yield 'C16.stab.extreme_cores', dict(d=d, r=2, n=2, seed=1, fam=fam, s=s)
+    # ---- parameter / regime coverage (audit) ------------------------------------------------------------------
+    NEWPROF = ('one', 'ends', 'alt2')
+    # (a) scale distributions: one huge / tiny core, both ends, alternating huge / tiny - every stabilised routine
+    for d in (2, 3, 10, 60, 500) + ((3000,) if big else ()):
+        for fam in fams:
+            for r in (1, 2, 3):
+                if fam == 'rank1s' and r > 1 or d >= 500 and r == 3 and not big:
+                    continue
+                for pi, prof in enumerate(NEWPROF):
+                    if prof == 'alt2' and d > 500:
+                        continue                             # total beyond 2^+-30000
+                    for sgn in (1, -1):
+                        if not big and (d >= 500 or fam in ('int', 'rot')) and (pi + r + (sgn > 0)) % 2:
+                            continue
+                        if not big and d >= 500 and (fam in ('int', 'rot') or (r == 2 and fam != 'pos')):
+                            continue
+                        base = dict(d=d, r=r, n=2, seed=pi + 10 * r + d, fam=fam, prof=prof, s=sgn * 80)
+                        yield 'C16.norm.stab_value', dict(base)
+                        yield 'C16.mul_scalar.stab_value', dict(base, prof2=(NEWPROF + PROFILES)[(pi + r + d) % 11], s2=-sgn * 40)
+                        for kmode in (('first', 'last', 'mid', 'second', 'penult') if (big or d <= 10) else (('first', 'last', 'mid', 'second', 'penult')[(pi + r) % 5],)):
+                            yield 'C16.orthogonalize.stab_large', dict(base, kmode=kmode)
+                        for ri, rel in enumerate(('other', 'perturbed', 'copy', 'huge_vs_tiny', 'tiny_vs_huge')):
+                            if not big and (d >= 60 or fam in ('int', 'rot')) and (ri + pi + r) % (5 if d >= 500 else 3):
+                                continue
+                            yield 'C16.accuracy.relative_distance', dict(base, rel=rel)
+                        if fam != 'int' and (big or d < 500 or r == 1):
+                            yield 'C16.truncate.stab_large', dict(base, e=1e-6, inflate='dup')
+                            if r > 1 and (big or d <= 60):
+                                yield 'C16.truncate.stab_large', dict(base, e=1e-3, inflate='decay')
+    # (b) pivot next to the ends / at the thirds for the old profiles
+    for d in (2, 3, 10, 60) + ((500,) if big else ()):
+        for fam in (fams if big else ('pos', 'gauss', 'rank1s')):
+            for r in (1, 2, 3):
+                if fam == 'rank1s' and r > 1:
+                    continue
+                for pi, prof in enumerate(PROFILES):
+                    for kmode in (('second', 'penult', 'third', 'q3') if big else (('second', 'penult', 'third', 'q3')[(pi + r) % 4],)):
+                        yield 'C16.orthogonalize.stab_large', dict(d=d, r=r, n=2 + (pi + r) % 2, seed=pi + 10 * r, fam=fam, prof=prof,
+                                                                   s=(80 if pi % 2 else -80) if prof != 'zero' else 0, kmode=kmode)
+    # (c) rescaling one core by 2^t: exponent shift and nothing else
+    for d in (2, 3, 10, 60) + ((500,) if big else ()):
+        for fam in (fams if big else ('pos', 'gauss', 'int')):
+            for r in (1, 2, 3):
+                if fam == 'rank1s' and r > 1:
+                    continue
+                for pi, (prof, s_) in enumerate((('zero', 0), ('up', 60), ('down', -60), ('alt', 80), ('rand', 40), ('one', 80))):
+                    for ti, t in enumerate((1, -3, 17, -40, 100)):
+                        if not big and (ti + pi + r) % 3:
+                            continue
+                        pos = ('first', 'last', 'mid', 'second', 'penult')[(ti + pi) % 5]
+                        kmode = ('first', 'last', 'mid', 'none', 'second')[(ti + r) % 5]
+                        yield 'C16.rescale.exponent_only', dict(d=d, r=r, n=2 + (pi % 2), seed=pi + r, fam=fam, prof=prof, s=s_,
+                                                                pos=pos, t=t, kmode=kmode)
+    # (d) truncate: binding / non-binding rank cap (int and float), skeleton branch, large e
+    for d in (2, 3, 10, 60) + ((500,) if big else ()):
+        for fam in ('pos', 'gauss', 'rot'):
+            for r in (2, 3):
+                for pi, (prof, s_) in enumerate((('zero', 0), ('up', 80), ('down', -80), ('alt', 80), ('one', 80))):
+                    if not big and d >= 60 and (pi + r) % 2:
+                        continue
+                    base = dict(d=d, r=r, n=2 + (pi % 2), seed=pi + 10 * r, fam=fam, prof=prof, s=s_)
+                    yield 'C16.truncate.stab_large', dict(base, e=1e-6, inflate='dup', rcap=r)             # cap = TT-rank < ranks
+                    yield 'C16.truncate.stab_large', dict(base, e=1e-6, inflate='dup', rcap=float(r + 1))
+                    yield 'C16.truncate.stab_large', dict(base, e=1e-12, inflate='none', rcap=r - 1)      # cap below the TT-rank
+                    yield 'C16.truncate.stab_large', dict(base, e=1e-6, inflate='dup', rcap=1)
+                    yield 'C16.truncate.stab_large', dict(base, e=1e-6, inflate='dup', is_eigh=False)
+                    yield 'C16.truncate.stab_large', dict(base, e=1e-3, inflate='decay', is_eigh=False, rcap=r)
+                    yield 'C16.truncate.stab_large', dict(base, e=0.3, inflate='decay')
+    for d in (2, 3, 10, 60):
+        for fam in ('pos', 'gauss'):
+            for r in (2, 3):
+                yield 'C16.stab_vs_plain.agree', dict(d=d, r=r, n=2, seed=d + r, fam=fam, prof='alt', s=40, e=1e-4, rcap=r - 1)
+                yield 'C16.stab_vs_plain.agree', dict(d=d, r=r, n=2, seed=d + r, fam=fam, prof='up', s=3, e=1e-4, is_eigh=False)
+                yield 'C16.stab_vs_plain.agree', dict(d=d, r=r, n=[3, 1, 2], seed=d + r, fam=fam, prof='rand', s=2, e=0.05, rcap=2.)
+    # (e) d > 1030: the total exponent p of the rounding is redistributed as 2^(p/d) per core - sweep p mod d over [0, d)
+    # (rank-1 inputs: nothing to truncate, but the exponent is redistributed all the same; exact reference stays cheap)
+    for d in ((1031, 2100) if big else (2100,)):
+        for fam in ('pos', 'rank1s'):
+            for prof, s_ in (('up', 12), ('down', -12)):
+                for m in range(8 if big else 4):
+                    tsh = (m * (d // (8 if big else 4)) + 37) * (1 if s_ > 0 else -1)
+                    base = dict(d=d, r=1, n=2, seed=m + 1, fam=fam, prof=prof, s=s_)
+                    if not big and (m + (fam == 'pos') + (s_ > 0)) % 2:
+                        continue
+                    yield 'C16.truncate.stab_large', dict(base, e=1e-6, inflate='none', tshift=tsh)
+                    if big and fam == 'pos':
+                        yield 'C16.truncate.stab_large', dict(base, e=1e-6, inflate='dup', tshift=tsh, rcap=1)
+        yield 'C16.truncate.stab_large', dict(d=d, r=1, n=2, seed=1, fam='pos', prof='up', s=12, e=1e-6, inflate='dup', tshift=d // 2 + 37, rcap=1)
+    # (f) mode sizes 1, 5, 17 and mixed; ranks larger than the boundary cores can carry (r = 5 with n = 2, 1)
+    for d in (2, 3, 10, 60):
+        for n in (1, 5, [2, 1, 3], [1, 17]):
+            for fam in ('pos', 'gauss', 'int'):
+                for r in (1, 2, 5):
+                    if r == 5 and d > 10 and not big:
+                        continue
+                    prof, s_ = (('up', 80), ('down', -80), ('alt', 80), ('rand', -60))[(d + r + len(str(n))) % 4]
+                    base = dict(d=d, r=r, n=n, seed=d + r, fam=fam, prof=prof, s=s_)
+                    yield 'C16.norm.stab_value', dict(base)
+                    yield 'C16.mul_scalar.stab_value', dict(base, prof2='alt', s2=30)
+                    yield 'C16.orthogonalize.stab_large', dict(base, kmode=('first', 'last', 'mid', 'second')[(d + r) % 4])
+                    yield 'C16.accuracy.relative_distance', dict(base, rel=('other', 'perturbed', 'copy')[(d + r) % 3])
+                    if fam != 'int':
+                        yield 'C16.truncate.stab_large', dict(base, e=1e-6, inflate='dup' if r < 5 else 'none')
+    # (g) accuracy: separations on both sides of the saturation threshold 2^500
+    for d in (4, 10, 60) + ((500,) if big else ()):
+        for fam in ('pos', 'gauss', 'rank1s'):
+            for sep in (100, 300, 450, 497, 504, 520):
+                for prof, s_ in (('zero', 0), ('up', 40), ('down', -40)):
+                    if not big and (sep + d + s_) % 3 == 0:
+                        continue
+                    yield 'C16.accuracy.relative_distance', dict(d=d, r=1 if fam == 'rank1s' else 2, n=2, seed=sep + d, fam=fam, prof=prof,
+                                                                 s=s_, rel='huge_vs_tiny', sep=sep)
+    # (h) core_stab on 1-D / 2-D blocks (mul_scalar passes its 2-D interface matrix)
+    for shape in ([3, 4], [1, 1], [6], [2, 1, 3, 2]):
+        for sd in range(6):
+            for k in (0, -1, 52, 300, -300, 900, -333, -340):
+                yield 'C16.core_stab.contract', dict(shape=shape, seed=sd, k=k, p0=(0, 7, -1000)[(sd + k) % 3], thr=None)
     # seeded random part
     for _ in range(120 if big else 30):
         d = int((2, 3, 5, 10, 30, 60, 200)[int(g.integers(0, 7))])
